@@ -97,12 +97,23 @@ def run(repo: Repo, L: Ledger, tier: str):
         raise AnalysisError("anchor format.format_agp vanished")
     ps = fmt.params()
     ex = _FmtExec(repo, ps[1])
-    if tier == "thorough":
-        ex.loop_iters = (0, 1, 2, 3)
     st = State()
     finals = ex.run_function(fmt, st, {ps[0]: Sym("asm"), ps[1]: Sym("file")})
     if not finals:
         raise AnalysisError("format_agp has no completing path")
+    if tier == "thorough":
+        # deeper: one scaffold with 0..5 rows (364 row-kind sequences) in addition to the 2x2 grid above
+        def deep(loop):
+            it = norm(loop.iter)
+            if "rows" in it:
+                return (0, 1, 2, 3, 4, 5)
+            if "scaffolds" in it:
+                return (1,)
+            return (0,)
+
+        ex2 = _FmtExec(repo, ps[1])
+        ex2.per_loop = deep
+        finals = finals + ex2.run_function(fmt, State(), {ps[0]: Sym("asm"), ps[1]: Sym("file")})
 
     n_rows = 0
     n_paths = 0
